@@ -259,6 +259,55 @@ fn eqhash_k(_case: &Value, inputs: &Value) -> Value {
     json!({"eq": x.equal_to(&y) && (*x == *y), "hash_eq": hx.finish() == hy.finish(), "enc_eq": enc_eq})
 }
 
+// does opcode `op` reach an operator implementation under the dialect used for operators_version?
+fn tables_k(case: &Value, inputs: &Value) -> Value {
+    use chialisp::classic::clvm::keyword_from_atom;
+    use chialisp::classic::clvm_tools::stages::stage_0::{RunProgramOption, TRunProgram};
+    let v = case["version"].as_u64().unwrap() as usize;
+    let op = bytes_of(&inputs["op"]);
+    let in_table = keyword_from_atom(v).contains_key(&op);
+    let mut a = Allocator::new();
+    // program (op) with no arguments in an empty environment: "unimplemented operator" iff not dispatched
+    let o = a.new_atom(&op).unwrap();
+    let nil = a.nil();
+    let prog = a.new_pair(o, nil).unwrap();
+    let runner = DefaultProgramRunner::new();
+    let r = runner.run_program(&mut a, prog, nil, Some(RunProgramOption { operators_version: v, ..RunProgramOption::default() }));
+    let implemented = match r {
+        Ok(_) => true,
+        Err(e) => {
+            let d = format!("{:?}", e);
+            !(d.contains("unimplemented operator") || d.starts_with("Unimplemented"))
+        }
+    };
+    // table consistency through the public API (independent of `op`)
+    use chialisp::classic::clvm::keyword_to_atom;
+    use chialisp::compiler::prims::{prim_map, prims};
+    use chialisp::compiler::sexp::SExp as R;
+    use chialisp::util::u8_from_number;
+    let mut checks = serde_json::Map::new();
+    let fa = keyword_from_atom(v);
+    let ta = keyword_to_atom(v);
+    checks.insert("mutually_inverse".to_string(), json!(fa.iter().all(|(k, n)| ta.get(n) == Some(k)) && ta.iter().all(|(n, k)| fa.get(k) == Some(n)) && fa.len() == ta.len()));
+    if v > 0 {
+        let pfa = keyword_from_atom(v - 1);
+        let pta = keyword_to_atom(v - 1);
+        checks.insert("versions_only_add".to_string(), json!(pfa.iter().all(|(k, n)| fa.get(k) == Some(n)) && pta.iter().all(|(n, k)| ta.get(n) == Some(k))));
+    }
+    let ta2 = keyword_to_atom(2);
+    let pl: Vec<(Vec<u8>, Vec<u8>)> = prims().iter().map(|(n, s)| (n.clone(), match s { R::Integer(_, i) => u8_from_number(i.clone()), _ => vec![] })).collect();
+    let names: std::collections::HashSet<Vec<u8>> = pl.iter().map(|p| p.0.clone()).collect();
+    let codes: std::collections::HashSet<Vec<u8>> = pl.iter().map(|p| p.1.clone()).collect();
+    checks.insert("prims_unique".to_string(), json!(names.len() == pl.len() && codes.len() == pl.len()));
+    checks.insert("prims_agree_with_classic".to_string(), json!(pl.iter().all(|(n, k)| {
+        match ta2.get(&String::from_utf8_lossy(n).to_string()) { Some(kk) => kk == k, None => true }
+    })));
+    checks.insert("classic_names_known_to_modern".to_string(), json!(ta2.keys().all(|n| names.contains(n.as_bytes()))));
+    checks.insert("modern_names_known_to_classic".to_string(), json!(names.iter().all(|n| ta2.contains_key(&String::from_utf8_lossy(n).to_string()))));
+    checks.insert("prim_map_is_prims".to_string(), json!(prim_map().len() == pl.len()));
+    json!({"in_table": in_table, "implemented": implemented, "checks": Value::Object(checks)})
+}
+
 // assemble(text) -> tree (used to evaluate constant patterns natively)
 fn assemble_k(_case: &Value, inputs: &Value) -> Value {
     let mut a = Allocator::new();
@@ -273,6 +322,7 @@ pub fn dispatch(kernel: &str, case: &Value, inputs: &Value) -> Value {
         "assemble" => assemble_k(case, inputs),
         "int_from_bytes" => int_from_bytes_k(case, inputs),
         "decode" => decode_k(case, inputs),
+        "tables" => tables_k(case, inputs),
         "eqhash" => eqhash_k(case, inputs),
         "conv" => conv_k(case, inputs),
         "run_both" => run_both_k(case, inputs),
